@@ -1,6 +1,8 @@
-(* C19 - executable model of votelib/persist.py: serialize_value, deserialize_value,
-   deserialize_typed, deserialize_class, from_dict, and of what json.dumps/json.loads does to a
-   serialised value.  Models only - proofs are in Proofs/Persist_proofs.v.
+(* C19 - executable model of votelib/persist.py: serialize_value (after fixes/C19-persist-rejects.diff:
+   [ser_fixed] / [serialize_value], inside the environment section because names are resolved at save
+   time; before it: [ser] / [serialize_value_pinned]), deserialize_value, deserialize_typed,
+   deserialize_class, from_dict, and of what json.dumps/json.loads does to a serialised value.
+   Models only - proofs are in Proofs/Persist_proofs.v and Proofs/PersistRejects_proofs.v.
 
    Strings are lists of code points.  What the model cannot contain is an oracle argument
    (record [env]): the Unicode identifier tables beyond ASCII, Decimal(str) (the parser of the
@@ -185,7 +187,7 @@ Fixpoint str_keys (d : list (pval * pval)) : option (list (str * pval)) :=
   | _ :: _ => None
   end.
 
-(* ---------------------------------------------------------------- serialize_value *)
+(* ---------------------------------------------------------------- serialize_value (pinned tree) *)
 (* [tup]: whether Fraction.as_integer_ratio() is still a tuple (true: the value as returned by
    to_dict; false: after json.loads(json.dumps(.))) *)
 Fixpoint ser (tup : bool) (v : pval) : sres :=
@@ -237,7 +239,10 @@ Fixpoint ser (tup : bool) (v : pval) : sres :=
   | POpaque _ => SErr
   end.
 
-Definition serialize_value : pval -> sres := ser true.
+(* serialize_value of the tree BEFORE the repair fixes/C19-persist-rejects.diff (the pinned behaviour): it refuses only a
+   value it has no branch for; the repaired function [ser_fixed] / [serialize_value] follows the environment below
+   (names are resolved at save time) *)
+Definition serialize_value_pinned : pval -> sres := ser true.
 
 (* json.loads(json.dumps(j)) on what serialize_value emits: tuples become lists *)
 Fixpoint json_rt (j : jval) : jval :=
@@ -252,7 +257,7 @@ Record env := {
   xid_start : Z -> bool;            (* str.isidentifier tables for code points >= 128 *)
   xid_continue : Z -> bool;
   dec_canon : str -> option str;    (* str(Decimal(s)), None = decimal.InvalidOperation *)
-  class_exists : str -> bool;       (* get_object(name) finds something *)
+  class_exists : str -> bool;       (* get_object(name) finds the class so named (at save time: it is type(value)) *)
   class_accepts : str -> list str -> bool;   (* ... and it can be called with these keyword names *)
   callable_resolves : str -> bool;  (* get_object(name) finds the function again *)
 }.
@@ -414,6 +419,89 @@ Section Env.
       end
     else plain rs.
 
+  (* ------------------------------------------------------------ serialize_value, repaired *)
+  (* reserved_key(d): the key by which deserialize_value interprets a dictionary (the same three tests, in the same order,
+     as [interp] below) *)
+  Inductive rkey := RType | RClass | RCallable | RPlain.
+  Definition reserved_key (d : list (str * jval)) : rkey :=
+    if sniff d s_type then RType
+    else if sniff d s_class then RClass
+    else if sniff d s_callable then RCallable
+    else RPlain.
+
+  (* serialize_value after fixes/C19-persist-rejects.diff.  [class_exists E c]: get_object(c) finds the class of the object
+     (or the factory function) again; [class_accepts E c names]: inspect.signature(cls).bind accepts the saved parameter
+     names; [callable_resolves E n]: get_object(n) is the function.  Refusals (all ValueError):
+       - an object whose dictionary would not be read as a class definition, whose class is not found under its name, or
+         whose constructor does not take the saved parameters;
+       - a str-keyed dictionary that deserialize_value would interpret ('type' / 'class' / 'callable' with an identifier);
+       - a set (any container other than dict, list, tuple, frozenset);
+       - a callable whose module.name is no identifier path or does not resolve to it;
+       - anything else without a branch. *)
+  Fixpoint ser_fixed (tup : bool) (v : pval) : sres :=
+    match v with
+    | PObj c ps =>                                     (* hasattr(value, 'to_dict') *)
+        match collect (map (fun kv => match kv with (_, x) => ser_fixed tup x end) ps) with
+        | Some js =>
+            let d := (s_class, JStr c) :: combine (map fst ps) js in
+            match reserved_key d with
+            | RClass => if class_exists E c && class_accepts E c (map fst ps) then SOk (JDict d) else SErr
+            | _ => SErr
+            end
+        | None => SErr
+        end
+    | PNone => SOk JNull                               (* ATOMIC_TYPES *)
+    | PBool b => SOk (JBool b)
+    | PInt z => SOk (JInt z)
+    | PFloat i => SOk (JFloat i)
+    | PStr s => SOk (JStr s)
+    | PFrac n d =>                                     (* CONVERTIBLE_TYPES *)
+        SOk (JDict [(s_type, JStr s_Fraction); (s_arguments, JList tup [JInt n; JInt (Zpos d)])])
+    | PDec s => SOk (JDict [(s_type, JStr s_Decimal); (s_value, JStr s)])
+    | PFrozenset l =>
+        match collect (map (ser_fixed tup) l) with
+        | Some js => SOk (JDict [(s_type, JStr s_frozenset); (s_value, JList false js)])
+        | None => SErr
+        end
+    | PTuple l =>
+        match collect (map (ser_fixed tup) l) with
+        | Some js => SOk (JDict [(s_type, JStr s_tuple); (s_value, JList false js)])
+        | None => SErr
+        end
+    | PDict d =>                                       (* type(value) is dict *)
+        match str_keys d with
+        | Some sd =>
+            match collect (map (fun kv => match kv with (_, x) => ser_fixed tup x end) d) with
+            | Some js =>
+                let jd := combine (map fst sd) js in
+                match reserved_key jd with
+                | RPlain => SOk (JDict jd)
+                | _ => SErr
+                end
+            | None => SErr
+            end
+        | None =>
+            match collect (map (fun kv => match kv with (k, _) => ser_fixed tup k end) d),
+                  collect (map (fun kv => match kv with (_, x) => ser_fixed tup x end) d) with
+            | Some ks, Some vs =>
+                SOk (JDict [(s_type, JStr s_dict); (s_keys, JList false ks); (s_values, JList false vs)])
+            | _, _ => SErr
+            end
+        end
+    | PList l =>                                       (* type(value) is list *)
+        match collect (map (ser_fixed tup) l) with
+        | Some js => SOk (JList false js)
+        | None => SErr
+        end
+    | PCallable name =>
+        if is_scoped_identifier name && callable_resolves E name
+        then SOk (JDict [(s_callable, JStr name)]) else SErr
+    | PSet _ => SErr                                   (* another iterable *)
+    | POpaque _ => SErr
+    end.
+
+  Definition serialize_value : pval -> sres := ser_fixed true.
+
   (* deserialize_value *)
   Fixpoint deser (j : jval) : dres :=
     match j with
@@ -498,7 +586,41 @@ Section Env.
     | POpaque _ => false
     end.
 
-  (* serialize_value raises exactly when an opaque value is reached *)
+  (* [representable] split in two.  [wf_value]: the clauses that hold of every Python value of the type (the encoding is
+     well-formed: Fraction reduced, Decimal named by its canonical string, members / keys hashable and pairwise different,
+     no parameter called 'class'); [loadable]: the genuine restrictions - exactly what the repaired serialize_value tests. *)
+  Fixpoint wf_value (v : pval) : bool :=
+    match v with
+    | PNone | PBool _ | PInt _ | PFloat _ | PStr _ | PCallable _ | POpaque _ => true
+    | PFrac n d => Z.gcd n (Zpos d) =? 1
+    | PDec s => match dec_canon E s with Some s' => str_eqb s' s | None => false end
+    | PTuple l | PList l => forallb wf_value l
+    | PFrozenset l | PSet l => forallb wf_value l && forallb hashable l && nodupb pval_eqb l
+    | PDict d =>
+        forallb (fun kv => match kv with (k, x) => wf_value k && wf_value x end) d
+        && forallb hashable (map fst d) && nodupb pval_eqb (map fst d)
+    | PObj c ps =>
+        forallb (fun kv => match kv with (_, x) => wf_value x end) ps
+        && negb (memb str_eqb s_class (map fst ps))
+    end.
+
+  Fixpoint loadable (v : pval) : bool :=
+    match v with
+    | PNone | PBool _ | PInt _ | PFloat _ | PStr _ | PFrac _ _ | PDec _ => true
+    | PTuple l | PList l | PFrozenset l => forallb loadable l
+    | PSet _ => false
+    | PDict d =>
+        forallb (fun kv => match kv with (k, x) => loadable k && loadable x end) d
+        && match str_keys d with Some sd => negb (reserved_hit sd) | None => true end
+    | PObj c ps =>
+        forallb (fun kv => match kv with (_, x) => loadable x end) ps
+        && is_scoped_identifier c && class_exists E c && class_accepts E c (map fst ps)
+        && negb (psniff ps s_type)
+    | PCallable name => is_scoped_identifier name && callable_resolves E name
+    | POpaque _ => false
+    end.
+
+  (* the pinned serialize_value raises exactly when an opaque value is reached *)
   Fixpoint has_opaque (v : pval) : bool :=
     match v with
     | POpaque _ => true
